@@ -33,7 +33,7 @@ def width (evs : List Event) (msgs : List Msg) : Nat :=
   (evs.map (·.stats.c.length)).foldl Nat.max
     ((msgs.map fun m => match m.stats with | none => 0 | some s => s.c.length).foldl Nat.max 0)
 
-def filesOk (evs : List Event) (msgs : List Msg) : Bool := deliveredFiles msgs == producedFiles evs
+def filesOk (evs : List Event) (msgs : List Msg) : Bool := decide (deliveredFiles msgs = producedFiles evs)
 
 def countersOk (evs : List Event) (msgs : List Msg) : Bool :=
   (List.range (width evs msgs)).all fun i => deliveredCtr msgs i == producedCtr evs i
